@@ -1,7 +1,7 @@
 """C20 - duplicated rules never contradict each other."""
 import common
 
-THEOREMS = ["c20_label_pairs", "c20_uri_host_pair", "c20_uri_host_old_refuted", "c20_mirror", "c20_limit_pairs"]
+THEOREMS = ["c20_label_pairs", "c20_uri_host_pair", "c20_uri_host_old_refuted", "c20_mirror", "c20_limit_pairs", "c20_name_twins", "c20_san_ian_twins", "c20_pub_suffix_copy_differs"]
 
 
 def run(ctx):
@@ -11,6 +11,13 @@ def run(ctx):
     d = common.harness_json(["c20"], timeout=3000)
     common.gendir("C20")
     mon = common.report_monitor_violations(ctx, d)
+    gheader = ("From ZL Require Import Base.Bytes Base.Corr Kernels.Names Kernels.GeneralNames.\nFrom Coq Require Import ZArith List.\nImport ListNotations.\nOpen Scope Z_scope.\n"
+               "Fixpoint zl_eqb (a b : list Z) : bool := match a, b with [], [] => true | x :: a', y :: b' => (x =? y) && zl_eqb a' b' | _, _ => false end.\n"
+               "Definition chkg (c : gview * list Z) : bool := zl_eqb (all_gn_lints (fst c)) (snd c).\n")
+    fg = common.corr_stream(ctx, "gn", d["cases"].get("gn", []), gheader, "chkg",
+                            "GeneralNames.all_gn_lints (seventeen general-name lints, modelled in full; c20_san_ian_twins applies to the model) vs the real lints")
+    if not mon:
+        common.report_disagreements(ctx, "gn", fg, "Kernels.GeneralNames.all_gn_lints", [])
     ctx.oblige("dynamic pair monitor: on every certificate where both members of a pair run on the same content, the statuses agree (same status / finding iff finding / error implies finding); listed known findings excepted", not mon)
     never = d["data"].get("pairs_never_exercised") or []
     ctx.oblige("every one of the %d pairs was exercised with both members running" % d["stats"].get("pairs", 0), not never, str(never))
